@@ -42,6 +42,8 @@ pub enum Exp {
     Zero,
     /// beyond the host's maximum entry TTL: outcome not constrained (Either)
     Far,
+    /// u32::MAX: likewise
+    Max,
 }
 
 #[derive(Clone, Debug, Serialize, Deserialize, PartialEq, Eq)]
@@ -96,6 +98,7 @@ fn exp() -> impl Strategy<Value = Exp> {
         4 => (2u16..80).prop_map(Exp::Plus),
         1 => Just(Exp::Zero),
         1 => Just(Exp::Far),
+        1 => Just(Exp::Max),
     ]
 }
 
@@ -306,13 +309,14 @@ impl Property for C12 {
                         Exp::Plus(k) => m.seq + *k as u32,
                         Exp::Zero => 0,
                         Exp::Far => m.seq + 7_000_000,
+                        Exp::Max => u32::MAX,
                     };
                     expect = if v < 0 {
                         Expect::Fail
                     } else if v > 0 && e < m.seq {
                         cx.label("approve_already_expired");
                         Expect::Fail
-                    } else if matches!(exp, Exp::Far) && v > 0 {
+                    } else if matches!(exp, Exp::Far | Exp::Max) && v > 0 {
                         Expect::Either
                     } else {
                         Expect::Ok
